@@ -22,6 +22,7 @@ from vlib.boot import B
 from vlib.ob import obligation
 from vlib.h_stores import TmpDir, pick_int, warm_sqlite
 
+import logging
 import os
 import sqlite3
 
@@ -51,6 +52,7 @@ ASSUMES = [
     "the reference schema is the one obtained by migrating a fresh database once in the same path",
     "one database file is only ever opened in ONE connection mode (per-call connections, or the lock-free unix-none VFS of "
     "single_connection=True) — see OUTSIDE",
+    "logging is disabled process-wide (LogRecord creation reads the wall clock, which CrossHair makes symbolic); log output is not observed",
     "tmp databases live on /dev/shm (tmpfs) when writable; journal_mode=WAL succeeds there, so the retry/sleep branch of "
     "run_migrations is not taken",
 ]
@@ -66,6 +68,9 @@ OUTSIDE = [
 ]
 
 warm_sqlite()
+# Building a LogRecord reads time.time(), which CrossHair turns into a symbolic float and forks on (run_migrations logs on its
+# WAL-fallback and failure branches).  Log output is not an observation of this property.
+logging.disable(logging.CRITICAL)
 
 _FILES = iter_migration_files(SQLITE_MIGRATION_SOURCE[1])
 NMIG = len(_FILES)            # 4 at the pinned commit; read from the tree so a new migration file extends the bound
